@@ -250,7 +250,8 @@ def check(ctx, res) -> None:
     # ---- R06.4 call-site discovery looks at every resource: a path through the resources loop that skips the
     # occurrence analysis is only sound if its condition rules out every name the finders search for
     cc = idx.need_func("rope.refactor.change_signature.ChangeSignature._change_calls")
-    cfg = CFG(cc.node)
+    from .common import inlined as _inl
+    cfg = CFG(_inl(idx, cc))  # the per-file step may be a private method of the class: read in place
     finder_names = []
     from .common import with_private_helpers
     for g in with_private_helpers(idx, cc):  # the finders may be built in a private helper of _change_calls
